@@ -133,8 +133,11 @@ def tree_effects(tree, into_sc=False):
                 if cid and not is_const_method_id(cid) and not n.get("conv"):
                     yield ("write", th, n)
             elif th is not None and n.get("dep"):
-                # unresolved member call in a template pattern: conservatively a write of the receiver
-                yield ("maybe_write", th, n)
+                # unresolved member call in a template pattern: conservatively a write of the receiver - unless the receiver has a
+                # const type (a member seen from a const member function, a const local / parameter): only const members are viable
+                tht = (ir.unwrap(th).get("type") or "") if isinstance(ir.unwrap(th), dict) else ""
+                if not (tht.startswith("const ") and not tht.rstrip().endswith("*")):
+                    yield ("maybe_write", th, n)
             nm = n.get("name") or ""
             if nm in ("std::move", "std::forward") and n.get("args"):
                 yield ("move", n["args"][0], n)
